@@ -23,8 +23,25 @@ func VerifFifoShape[T any](q *Queue[T]) [][3]int {
 	return out
 }
 
+// VerifFifoCounters reads the two counters whatever the tree calls or keeps them (reflection, so that a refactoring of the
+// queue's fields does not take the whole harness down with it); ^0 when a counter is not there any more.
 func VerifFifoCounters[T any](q *Queue[T]) (uint64, uint64) {
-	return q.writeCount.Load(), q.readCount.Load()
+	rd := func(name string) uint64 {
+		f := reflect.ValueOf(q).Elem().FieldByName(name)
+		if !f.IsValid() || !f.CanAddr() {
+			return ^uint64(0)
+		}
+		m := reflect.NewAt(f.Type(), unsafe.Pointer(f.UnsafeAddr())).MethodByName("Load")
+		if !m.IsValid() {
+			return ^uint64(0)
+		}
+		out := m.Call(nil)
+		if len(out) != 1 || !out[0].CanUint() {
+			return ^uint64(0)
+		}
+		return out[0].Uint()
+	}
+	return rd("writeCount"), rd("readCount")
 }
 
 // VerifPQShape returns the heap array as (priority, insertion index) pairs.
